@@ -10,13 +10,21 @@ REQUIRED = ["Moon.geocentric_ecliptical_pos", "Moon.apparent_ecliptical_pos", "M
             "Moon.longitude_mean_perigee", "Moon.illuminated_fraction_disk",
             "Moon.moon_phase", "Moon.moon_perigee_apogee", "Moon.moon_passage_nodes",
             "Moon.moon_maximum_declination", "Epoch.get_doy", "Epoch.is_leap", "Epoch.get_date"]
-THEOREMS = ["C15_angle_reduction", "C15_mean_node", "C15_mean_perigee", "C15_node_rate", "C15_perigee_rate",
-            "C15_illuminated_fraction", "C15_finder_index", "C15_finder_spacing"]
-PROOF_TIMEOUT = {"quick": 1800, "thorough": 3000}
+# finder closed forms (one proof file per finder/target, written by coq/proofs/C15/mkmoon.py and checked in)
+FINDER_TARGETS_QUICK = ["moon_maximum_declination_northern", "moon_maximum_declination_southern",
+                        "moon_passage_nodes_ascending", "moon_passage_nodes_descending",
+                        "moon_perigee_apogee_apogee", "moon_perigee_apogee_perigee"]
+FINDER_TARGETS_THOROUGH = ["moon_phase_first", "moon_phase_full", "moon_phase_last", "moon_phase_new"]
+FINDER_NAMES = ["moon_perigee_apogee", "moon_passage_nodes", "moon_maximum_declination", "moon_phase"]
+THEOREMS = (["C15_angle_reduction", "C15_mean_node", "C15_mean_perigee", "C15_node_rate", "C15_perigee_rate",
+             "C15_illuminated_fraction", "C15_finder_index", "C15_finder_spacing"]
+            + ["C15_" + t for t in FINDER_TARGETS_QUICK] + ["C15_%s_refusals" % f for f in FINDER_NAMES]
+            + ["C15_finder_timing"])
+PROOF_TIMEOUT = {"quick": 2400, "thorough": 3300}
 EXHAUSTIVE = False
 MANIFEST = {
     "category": "proof",
-    "text": ("T4/T6 (partial proof): the regenerated model of Moon.py is evaluated symbolically in the real-number instance "
+    "text": ("T4/T6 (partial proof): closed forms of the lunar event finders (perigee/apogee, node passages, maximum declinations in every run; the four moon phases in the thorough tier) proved on the regenerated code with every coefficient written out, refusals (TypeError/ValueError), deviation bound C by interval arithmetic and ordering/spacing through Spec/MoonFinder.v; further: the regenerated model of Moon.py is evaluated symbolically in the real-number instance "
              "(pyrun driver with innermost-first arithmetic and the Angle constructor/reduce_deg/to_positive abstracted through "
              "lemmas proved on the generated Angle model for EVERY real argument): Angle(Angle.reduce_deg(x)).to_positive() = "
              "x mod 360 in [0,360); closed forms of the mean node / mean perigee longitudes (secular rates = the linear "
@@ -25,7 +33,7 @@ MANIFEST = {
              "the fractional year and onto, results strictly increasing in k and one mean month +-(2C+D) apart.  Parallax "
              "relation, envelopes, daily motion, closed forms of the four finders, agreement of the finders with the position "
              "theory and totality on every calendar day are searched on the implementation with the property's numbers "
-             "(symbolic evaluation of the 60-row table loops / 60-term finder sums exceeded the memory budget); bit-exact "
+             "(symbolic evaluation of the two 60-row table loops of the position theory exceeded the memory budget); bit-exact "
              "correspondence of every anchored function."),
     "technique": "pyrun symbolic evaluation with abstracted callees + lra/interval in the ideal instance; spec lemmas by lra/lia; "
                  "generated model + bit-exact differential correspondence; Python property oracle with the property's tolerances",
@@ -44,18 +52,25 @@ CLAUSES = {
     "distance 356000-407000 km, |latitude| <= 5.35 deg": "unproved (searched)",
     "longitude advances 11.5-15.6 deg/day": "unproved (searched)",
     "finders: k from the rounded fractional year is non-decreasing and takes every value": "proved [spec]",
-    "results strictly increasing in k, consecutive results one mean month +-(2C+D) apart when 2C+D < B": "proved [spec]; instantiation on the generated finders (closed form, amplitude C): unproved (searched: never backwards, spacing within natural variation on every calendar day of the sample years)",
+    "results strictly increasing in k, consecutive results one mean month +-(2C+D) apart when 2C+D < B": "proved [spec]",
+    "finder closed forms on the regenerated code (perigee/apogee, node passages, maximum declinations; moon_phase x4 in the thorough tier): index k = round((year - y0) rate, 0) + target offset from the fractional year, result Epoch(mean(k) + periodic terms) [+ Angle(parallax) / Angle(declination)], every coefficient": "proved [ideal; Epoch.get_date/is_leap/get_doy values, Epoch(x) and Angle(0,0,p) as hypotheses]",
+    "deviation |result - (J0 + B k)| <= C on -41 <= T <= 21 with 2C < B (C = 1.28 / 1.96 / 4.20 / 2.16 d nodes / apogee / perigee / declination; phases 0.95..1.18 d) => consecutive results strictly ordered, B +- 2C apart, never backwards": "proved [ideal + spec: interval arithmetic on the proved coefficients, C15_finder_timing]",
     "results within 1.6 months of the query": "refuted on the unchanged tree for late years (known finding query-distance-1.6-months: moon_phase(Epoch(2600,1,12),'last') is 1.604 months later; up to 1.93 at year 4000); calibrated gross bound 2.0 months searched (key query-distance-gross)",
     "finder instants agree with the position theory (0.06 deg / 0.25 d / 0.02 deg / 0.25 d, 0.15 deg)": "unproved (searched at every distinct event of the sample years)",
-    "every target string; TypeError / ValueError": "unproved (searched exhaustively over the valid strings + malformed ones; correspondence)",
+    "every target string; TypeError / ValueError": "proved [ideal] for every finder: TypeError for a None/bool/int/float/str epoch or a non-string target, ValueError for the listed wrong strings (empty, wrong case, other finders' targets); arbitrary strings searched",
     "totality on every calendar day, both calendars, leap days of Julian century years": "unproved (searched: every day of the sample years incl. 1582 and Julian century years; 29 Feb / 1 Mar / 31 Dec of 12 Julian century years)",
 }
 
-PROOF_FILES = ["C15_angle.v", "C15_tac.v", "C15_nodes.v", "C15_illum.v", "C15.v"]
+PROOF_FILES = ["C15_angle.v", "C15_tac.v", "C15_nodes.v", "C15_illum.v"]
 
 
 def proof_files(tier):
-    return list(PROOF_FILES)
+    fs = (list(PROOF_FILES) + ["C15_tac2.v", "C15_fdefs.v"]
+          + ["C15_f_%s.v" % t for t in FINDER_TARGETS_QUICK] + ["C15_e_%s.v" % f for f in FINDER_NAMES])
+    if tier != "quick":
+        # Moon.moon_phase (4 targets): several minutes and GB each
+        fs += ["C15_f_%s.v" % t for t in FINDER_TARGETS_THOROUGH] + ["C15_phase.v"]
+    return fs + ["C15.v"]
 
 
 # ----------------------------------------------------------------------------------------------
